@@ -534,11 +534,12 @@ impl<'a, D: DependencyProvider> Encoder<'a, D> {
     fn queue_requirement(&mut self, solvable_id: SolvableOrRootId, requirement: Requirement) {
         let cache = self.cache;
         let query_requirements_candidates = async move {
-            let candidates =
-                futures::future::try_join_all(requirement.version_sets(cache.provider()).map(
-                    |version_set| cache.get_or_cache_sorted_candidates_for_version_set(version_set),
-                ))
-                .await?;
+            let candidates = super::cache::try_join_all_fail_fast(
+                requirement.version_sets(cache.provider()).map(|version_set| {
+                    cache.get_or_cache_sorted_candidates_for_version_set(version_set)
+                }),
+            )
+            .await?;
 
             Ok(TaskResult::RequirementCandidates(
                 RequirementCandidatesAvailable {
